@@ -437,6 +437,10 @@ fn c03_app_strategy(max_n: usize) -> BoxedStrategy<C03App> {
             }
             search.query_k = None;
             search.query_wf = None;
+            // Dijkstra only: A* can re-open a vertex and keep stale children (listed finding,
+            // recognised in the direct variant through the counting frontier, which an
+            // application does not have); this variant is about the configuration and glue layer
+            search.alg = AlgSpec::Dijkstra;
             search.spec.allowed = None;
             search.spec.restricted_turns = vec![];
             // what a configuration file can say: leaf rates, no surcharges
@@ -468,7 +472,7 @@ fn check_app(c: &C03App) -> Outcome {
     app.trav = sc.spec.trav.clone();
     app.access = sc.spec.access.clone();
     app.state = Some(sc.spec.state.clone());
-    app.alg = sc.alg.clone();
+    app.alg = AlgSpec::Dijkstra; // see c03_app_strategy
     app.w_dist = sc.spec.cost.w_dist;
     app.w_time = sc.spec.cost.w_time;
     app.output_plugins = vec![OutPlugin::Traversal {
@@ -629,6 +633,8 @@ impl Prop for C03 {
         let n = tier.pick(12, 40);
         prop_oneof![
             14 => c03_strategy(n, any_alg().boxed()).prop_map(C03Case::Direct),
+            // networks with many alternatives (C13's generator): several routes per result
+            2 => crate::props::c13::ksp_strategy(n.min(30)).prop_map(C03Case::Direct),
             1 => c03_app_strategy(n.min(16)).prop_map(C03Case::App),
         ]
         .boxed()
@@ -721,7 +727,11 @@ impl Prop for C03 {
                     }
                     prevs.len() >= 2
                 });
-                if reopened && !case.alg.is_yens() {
+                // the origin/destination markers of an edge-oriented route are not tree entries
+                // (run_edge_oriented builds them): a failure there is never the listed finding
+                let adjacent = ids.len() == 2;
+                let at_marker = case.edge_oriented && !adjacent && (k == 0 || k + 1 == ids.len());
+                if reopened && !at_marker && case.heuristic_in_use() && !case.alg.is_yens() {
                     o.fail("C03/reopened-vertex/stale-child-state", f.detail);
                 } else if case.alg.is_yens() {
                     // one root cause (spur search restarts from the initial state), many symptoms
